@@ -7,6 +7,10 @@ SL = FR + "SystemLoanFeeReserve"
 SC = "radix_engine::system::system_callback::System"
 
 
+_is_bal = lambda a: a.proj[-1:] == (".xrd_balance",)
+BAL_OK = G_not_less(_is_bal, lambda a: not _is_bal(a), "xrd_balance >= amount (any syntactic form)")
+
+
 def place_is_field(p, field):
     return isinstance(p, list) and p and p[-1] == "." + field
 
@@ -51,7 +55,7 @@ def run(ctx):
                         helpers[callee] = (bb, t, hb)
             lim = G_try(re.escape(SL) + f"::check_{kind}_cost_unit_limit$")
             if local_ded:
-                check_guarded(ctx, f"consume_{kind}_internal|commit", b, commit + local_ded, [lim, G_bool_call(r"PartialOrd(<.*>)?(>)?::lt$", False)],
+                check_guarded(ctx, f"consume_{kind}_internal|commit", b, commit + local_ded, [lim, BAL_OK],
                               "cost-unit commit / balance deduction", min_targets=2)
             elif helpers:
                 for callee, (hbb, ht, hb) in sorted(helpers.items()):
@@ -60,7 +64,7 @@ def run(ctx):
                                   f"cost-unit commit (deduction in helper {hs})", min_targets=1)
                     check_guarded(ctx, f"consume_{kind}_internal|helper-call-after-limit-check", b, [hbb], [lim], f"call of {hs}")
                     check_guarded(ctx, f"consume_{kind}_internal|{hs}|deduction-behind-balance-test", hb, field_update_blocks(hb, "xrd_balance"),
-                                  [G_bool_call(r"PartialOrd(<.*>)?(>)?::lt$", False)], f"balance deduction in {hs}")
+                                  [BAL_OK], f"balance deduction in {hs}")
             else:
                 ctx.ob(f"consume_{kind}_internal|commit", False, "no deduction of xrd_balance found in consume_*_internal or a reserve helper it calls", b.loc())
             for bb, t in b.calls(re.escape(SL) + f"::check_{kind}_cost_unit_limit$"):
@@ -118,7 +122,7 @@ def run(ctx):
     if ctx.anchor(n):
         b = ctx.body(n)
         check_guarded(ctx, "consume_royalty_internal|balance", b, field_update_blocks(b, "xrd_balance") + field_update_blocks(b, "royalty_cost_committed"),
-                      [G_bool_call(r"PartialOrd(<.*>)?(>)?::lt$", False)], "royalty deduction", min_targets=2)
+                      [BAL_OK], "royalty deduction", min_targets=2)
     n = SL + "::repay_all"
     if ctx.anchor(n):
         b = ctx.body(n)
